@@ -36,6 +36,14 @@ pub fn build(base: &Path, spec: &TreeSpec) -> Result<PathBuf, String> {
             EntryKind::Dir => {
                 fs::create_dir_all(&p).map_err(|e| format!("mkdir {:?}: {}", p, e))?;
             }
+            EntryKind::File(Content::Sparse { len, seed }) => {
+                use std::os::unix::fs::FileExt;
+                let f = fs::File::create(&p).map_err(|e| format!("create {:?}: {}", p, e))?;
+                f.set_len(*len).map_err(|e| format!("set_len {:?}: {}", p, e))?;
+                for (at, bytes) in islands(*len, *seed) {
+                    f.write_all_at(&bytes, at).map_err(|e| format!("write {:?}: {}", p, e))?;
+                }
+            }
             EntryKind::File(c) => {
                 fs::write(&p, c.materialize()).map_err(|e| format!("write {:?}: {}", p, e))?;
             }
